@@ -19,6 +19,9 @@ class Result:
     violations: list[dict] = field(default_factory=list)
     obs: Any = None  # JSON-able observation log (determinism digest, replay print-out)
     steps: int = 0  # library operations executed with the oracle evaluated after each of them
+    capped: bool = False  # an explicit-state search inside this execution hit its state cap
+    xstates: int = 0  # canonical states of an explicit-state (fixpoint) search inside this execution
+    xinfo: Any = None  # its counters (merges validated ...)
 
 
 _HEX32 = re.compile(r"[0-9a-f]{32}|0x[0-9a-f]{6,16}")
@@ -186,6 +189,11 @@ class Stats:
         self.outcomes: dict[str, int] = {}
         self.capped_programs = 0
         self.bounded_programs = 0  # programs explored with a deviation bound (not full)
+        self.fix_programs = 0  # explicit-state searches run to a fixpoint
+        self.fix_states = 0
+        self.fix_transitions = 0
+        self.fix_merges_validated = 0
+        self.fix_max_depth = 0
         self.rechecked = 0
         self.violations: dict[str, dict] = {}  # signature -> best witness
         self.violation_count = 0
@@ -203,6 +211,11 @@ class Stats:
             "outcomes": self.outcomes,
             "capped_programs": self.capped_programs,
             "bounded_programs": self.bounded_programs,
+            "fix_programs": self.fix_programs,
+            "fix_states": self.fix_states,
+            "fix_transitions": self.fix_transitions,
+            "fix_merges_validated": self.fix_merges_validated,
+            "fix_max_depth": self.fix_max_depth,
             "rechecked": self.rechecked,
             "violations": self.violations,
             "violation_count": self.violation_count,
@@ -239,7 +252,7 @@ def explore(  # noqa: PLR0913, PLR0912, C901
         prefix = stack.pop()
         ch = Chooser(prefix)
         try:
-            with _deadline(EXEC_DEADLINE_S):
+            with _deadline(program.get("deadline_s", EXEC_DEADLINE_S) if isinstance(program, dict) else EXEC_DEADLINE_S):
                 res = harness.execute(program, ch)
         except ExecutionTimeout:
             # a single execution normally takes milliseconds: the library (or the explored
@@ -287,6 +300,15 @@ def explore(  # noqa: PLR0913, PLR0912, C901
             stats.transitions += len(choices) - p + (1 if p else 0) + res.steps
             if res.nontrivial:
                 stats.nontrivial += 1
+            if res.capped:
+                stats.capped_programs += 1
+            if res.xstates:
+                stats.fix_programs += 0 if res.capped else 1
+                stats.fix_states += res.xstates
+                stats.fix_transitions += res.steps
+                if isinstance(res.xinfo, dict):
+                    stats.fix_merges_validated += res.xinfo.get("merges_validated", 0)
+                    stats.fix_max_depth = max(stats.fix_max_depth, res.xinfo.get("depth", 0))
             stats.max_depth = max(stats.max_depth, len(choices))
             dev = ch.deviations
             stats.max_deviations = max(stats.max_deviations, dev)
